@@ -158,6 +158,8 @@ def acc_frac(t):
 
 
 def check(ctx):
+    from harness import formulas
+    formulas.check_formulas(ctx, ['CDFEstimator._linear', 'CDFEstimator._parabolic'])
     rng = ctx.rng
     lines, posts = [], []
     ncases = ctx.scale(220, 2500)
